@@ -27,9 +27,10 @@ CONSTANTS Level,        \* 1 quick, 2 thorough (larger pools)
           Sites,        \* subset of {"fstr", "pct", "call", "join"}
           Dump
 
-Params == ndJsonDeserialize(IOEnv.C18_PARAMS)[1]   \* [seed, mod, rnd: <<[neg, mag]>>]
+\* sampling parameters written by the harness: [seed, mod, pmod, pmodo, jmod (3 numbers), rnd: <<[neg, mag]>>]
+Params == ndJsonDeserialize(IOEnv.C18_PARAMS)[1]
 Seed == Params.seed
-Mod  == Params.mod      \* one of Mod generic specs is evaluated (hash + seed)
+Mod  == Params.mod      \* one of Mod generic specs of the grammar is evaluated (hash + seed); pmod/pmodo/jmod: the same for %-templates and joins
 
 LIMBS == 5
 B == 65536
@@ -553,7 +554,8 @@ FCase(s, conv, cls) == [site |-> "fstr", s |-> s, conv |-> conv, cls |-> cls, pr
 Convs == {ch_r, ch_s, ch_a}
 FstrCases == {FCase(Render(f), 0, "core") : f \in CoreFields}
              \cup {FCase(Render(f), 0, "cfam") : f \in CFamFields \ CoreFields}
-             \cup {FCase(Render(f), cv, "conv") : f \in CFamFields \cup FFamFields, cv \in (IF Level = 1 THEN {ch_r} ELSE Convs)}
+             \cup {FCase(Render(f), cv, "conv") : f \in (IF Level = 1 THEN {g \in CFamFields : g.sign = 0} ELSE CFamFields) \cup FFamFields,
+                                                   cv \in (IF Level = 1 THEN {ch_r} ELSE Convs)}
              \cup {FCase(Render(f), 0, "ffam") : f \in FFamFields}
              \cup {FCase(Render(f), 0, "gen") : f \in GenFields \ (CoreFields \cup CFamFields \cup FFamFields)}
              \cup {FCase(Render(f), cv, "gen") : f \in {g \in GenFields : (Hash(g) + Seed) % 3 = 0}, cv \in Convs}
@@ -580,7 +582,7 @@ PHash(fl, w, p, t) == (IF fl = <<>> THEN 0 ELSE fl[1] * 3 + (IF Len(fl) > 1 THEN
 PRewritable(fl, t) == (fl = <<cSp>> \/ \A i \in 1..Len(fl) : fl[i] \in {cMinus, c0}) /\ t \in {ch_a, ch_s, ch_r, ch_f, ch_d, ch_o, ch_x, ch_X}
 PctCases == {PCase(fl, w, p, t) : fl \in FlagSeqs, w \in PWidths, p \in PPrecs, t \in PTypes}
 PctSel == {c \in [fl : FlagSeqs, w : PWidths, p : PPrecs, t : PTypes] :
-              IF PRewritable(c.fl, c.t) THEN (Level = 2 \/ (PHash(c.fl, c.w, c.p, c.t) + Seed) % 3 = 0) ELSE (PHash(c.fl, c.w, c.p, c.t) + Seed) % (Mod * 2) = 0}
+              (PHash(c.fl, c.w, c.p, c.t) + Seed) % (IF PRewritable(c.fl, c.t) THEN Params.pmod ELSE Params.pmodo) = 0}
 PctOps == {Op("cint", ti, v) : ti \in {5, 10}, v \in LightCands} \cup OtherOps \cup ObjOps
 PFlags(c) == {c.pre[i] : i \in {j \in 1..Len(c.pre) : \A k \in 1..j : ~(c.pre[k] \in 49..57)}}    \* flag characters: before the first non-zero digit
 PWidth(c) == LET st == CHOOSE i \in 1..Len(c.pre)+1 : (i = Len(c.pre) + 1 \/ c.pre[i] \in 49..57) /\ \A j \in 1..i-1 : ~(c.pre[j] \in 49..57)
@@ -602,9 +604,9 @@ PartPool == <<Lit(<<120>>), Lit(<<233>>), Lit(<<8364, 45>>), Lit(<<128512>>), Ph
               Ph(1, 0, <<cGt, 52>>), Ph(2, 0, <<>>), Ph(2, ch_r, <<>>), Ph(2, 0, <<cGt, 53>>), Ph(2, ch_a, <<>>), Ph(1, 0, <<c0, 50, ch_c>>)>>
 NPP == Len(PartPool)
 JHash(ix) == ix[1] * 3 + ix[2] * 7 + ix[3] * 13 + (IF Len(ix) > 3 THEN ix[4] * 17 ELSE 0) + (IF Len(ix) > 4 THEN ix[5] * 23 ELSE 0)
-J3 == {ix \in {<<i, j, k>> : i \in 1..NPP, j \in 1..NPP, k \in 1..NPP} : (JHash(ix) + Seed) % (IF Level = 1 THEN 20 ELSE 2) = 0}
-J4 == {ix \in {jx \o <<l>> : jx \in J3, l \in 1..NPP} : (JHash(ix) + Seed) % (IF Level = 1 THEN 16 ELSE 6) = 0}
-J5 == {ix \in {jx \o <<l>> : jx \in J4, l \in 1..NPP} : (JHash(ix) + Seed) % (IF Level = 1 THEN 30 ELSE 8) = 0}
+J3 == {ix \in {<<i, j, k>> : i \in 1..NPP, j \in 1..NPP, k \in 1..NPP} : (JHash(ix) + Seed) % Params.jmod[1] = 0}
+J4 == {ix \in {jx \o <<l>> : jx \in J3, l \in 1..NPP} : (JHash(ix) + Seed) % Params.jmod[2] = 0}
+J5 == {ix \in {jx \o <<l>> : jx \in J4, l \in 1..NPP} : (JHash(ix) + Seed) % Params.jmod[3] = 0}
 JoinIdx == J3 \cup J4 \cup J5
 JoinCases == {[site |-> "join", s |-> <<>>, conv |-> 0, cls |-> "join", pre |-> <<>>, prectext |-> <<>>, ty |-> 0, fn |-> "",
                parts |-> [i \in 1..Len(ix) |-> PartPool[ix[i]]] \o <<>>] : ix \in JoinIdx}
